@@ -1,9 +1,12 @@
 #!/bin/bash
-# usage: regress_quiet.sh [budget]  -- no check may raise an alarm on the stored behaviour-preserving / permitted-variation patches
+# usage: [ONLY=regex] regress_quiet.sh [budget]  -- no check may raise an alarm on the stored behaviour-preserving / permitted-variation
+# patches (seeded/refactorings/*, and the changes of the false-alarm red team in seeded/falsealarm/* except those listed in NOT-PERMITTED)
 B=${1:-6}; V=$(cd "$(dirname "$0")/.." && pwd); fail=0
-for d in $V/seeded/refactorings/*/; do
-  n=$(basename $d)
-  W=/tmp/wt-quiet-$$; git -C /repo worktree add -q --detach $W HEAD; (cd $W && git apply $d/patch.diff) || { echo "$n: patch does not apply"; git -C /repo worktree remove --force $W; continue; }
+for d in $V/seeded/refactorings/*/patch.diff $V/seeded/falsealarm/*/*.diff; do
+  n=$(basename $(dirname $d))/$(basename $d .diff); n=${n%/patch}
+  grep -q "^$n " $V/seeded/falsealarm/NOT-PERMITTED && continue
+  [ -n "${ONLY:-}" ] && ! echo "$n" | grep -qE "$ONLY" && continue
+  W=/tmp/wt-quiet-$$; git -C /repo worktree add -q --detach $W HEAD; (cd $W && git apply $d) || { echo "$n: patch does not apply"; git -C /repo worktree remove --force $W; continue; }
   printf "%-42s" $n
   for c in C01 C03 C04 C05 C06 C07 C08 C09 C10 C11 C12 C18 C19 C20; do
     out=$(VERIF_REPO=$W VERIF_BUDGET_S=$B $V/bin/vcheck $c 2>&1); rc=$?
